@@ -100,20 +100,28 @@ def accept (p : PInfo) (qm : List QInfo) (s : St) : List Line → Nat → Except
 
 def isEl (l : Line) : Bool := l.site.startsWith "el." || l.site.startsWith "x."
 
-/-- Independent monitor on the raw log: between a refusal note of an actor and the return of its
-    API call that actor performs no locking / state-changing step of the suspend protocol, and the
-    call reports failure. -/
+/-- Independent monitors on the raw log (observables only):
+    * between a refusal note of an actor and the return of its API call that actor performs no
+      locking / state-changing step of the suspend protocol, and the call reports failure;
+    * a successful `resume_processing_unit` returns only after its last sample of the worker's state
+      was not `sleeping` (the suspend side is checked by the model: `waiters`). -/
 def refuseMonitor (ls : List Line) : List String :=
-  let (_, errs) := ls.foldl (fun (acc : List Nat × List String) l =>
-    let (refused, errs) := acc
-    if l.site == "el.refuse" then (l.tid :: refused, errs)
-    else if refused.contains l.tid then
-      if l.site == "x.ret" then
-        (refused.erase l.tid, if l.b.toNat == 1 then errs else errs ++ [s!"refused call of actor {l.tid} returned success"])
-      else if l.site == "el.slock" || l.site == "el.cas" || l.site == "el.ucas" then
-        (refused, errs ++ [s!"actor {l.tid} continued with {l.site} on worker {l.a} after its call was refused"])
-      else (refused, errs)
-    else (refused, errs)) ([], [])
+  let (_, _, errs) := ls.foldl (fun (acc : List Nat × List (Nat × Nat) × List String) l =>
+    let (refused, last, errs) := acc
+    let setLast (v : Nat) := (l.tid, v) :: last.filter (fun p => p.1 != l.tid)
+    if l.site == "el.refuse" then (l.tid :: refused, last, errs)
+    else if l.site == "x.call" then (refused, setLast 0, errs)
+    else if l.site == "el.rload" then (refused, setLast (l.b.toNat % 256), errs)
+    else if l.site == "x.ret" then
+      let op := l.a.toNat % 256
+      let lastV := ((last.find? (fun p => p.1 == l.tid)).map (·.2)).getD 0
+      let e1 := if refused.contains l.tid && l.b.toNat != 1 then [s!"refused call of actor {l.tid} returned success"] else []
+      let e2 := if l.b.toNat == 0 && op == 2 && lastV == rsSleeping then
+          [s!"resume_processing_unit of actor {l.tid} returned although its last sample of the worker was sleeping"] else []
+      (refused.erase l.tid, last, errs ++ e1 ++ e2)
+    else if refused.contains l.tid && (l.site == "el.slock" || l.site == "el.cas" || l.site == "el.ucas") then
+      (refused, last, errs ++ [s!"actor {l.tid} continued with {l.site} on worker {l.a} after its call was refused"])
+    else (refused, last, errs)) ([], [], [])
   errs.take 3
 
 def runCase (c : Case) : String :=
